@@ -31,6 +31,51 @@ func (c *FileCase) worlds() []*World {
 	return w
 }
 
+// model is the program the structural oracles reason about: poryswitches resolved
+// for the case's switches, constants written out.
+func (c *FileCase) model() *File {
+	f := c.File
+	if c.Switches != nil {
+		r, ok := Resolve(f, c.Switches)
+		if !ok {
+			panic("harness: kitchen-sink files always have a fallback case")
+		}
+		f = r
+	}
+	return ExpandConsts(f)
+}
+
+// KitchenCfg turns every feature on at once: AutoVar conditions, statement
+// poryswitch (with the two known-finding exclusions, which are C12's / C20's
+// subject), symbolic case values, inline data, all top-level kinds.
+func KitchenCfg() FileCfg {
+	cfg := DefaultFileCfg()
+	cfg.CF.Auto = c16Auto
+	cfg.CF.AutoP = 5
+	cfg.CF.PS = 8
+	cfg.CF.PSNoDirectContinue = true
+	cfg.CF.PSNestedFallback = true
+	cfg.CF.PSAlwaysFallback = true
+	cfg.CF.SymCases = true
+	return cfg
+}
+
+// genKitchenCase draws a whole file with all features and constants.
+func genKitchenCase(t *rapid.T, nWorlds int, maxDepth int) *FileCase {
+	cfg := KitchenCfg()
+	cfg.CF.MaxDepth = maxDepth
+	cfg.MaxTops = 5
+	c := &FileCase{File: GenFile(t, cfg), Auto: c16Auto}
+	constify(t, c.File, c16Auto)
+	c.Switches = map[string]string{"V": rapid.SampledFrom([]string{"A", "B", "1", "zz"}).Draw(t, "swV"), "W": rapid.SampledFrom([]string{"A", "B", "q"}).Draw(t, "swW")}
+	c.Meta = map[string]string{"kitchen": "1"}
+	base := rapid.Uint64Range(1, 1<<40).Draw(t, "world")
+	for i := 0; i < nWorlds; i++ {
+		c.Worlds = append(c.Worlds, base+uint64(i))
+	}
+	return c
+}
+
 func genFileCase(t *rapid.T, cfg FileCfg, nWorlds int) *FileCase {
 	c := &FileCase{File: GenFile(t, cfg)}
 	base := rapid.Uint64Range(1, 1<<40).Draw(t, "world")
